@@ -2033,9 +2033,12 @@ def run(ctx: vlib.Ctx):
     # (T) decode side: the container the model's unpackers build per origin is the template the if/elif chain of
     # unpack.py:unpack_collection selects (kernel K118a, translated on this run); no branch of that chain, of
     # unpack_tuple, unpack_named_tuple or unpack_typed_dict returns its input or a shallow copy of it
-    ctx.trusted.append("K118a origin_facts: issubclass / `is` of each modelled origin class against the classes named in "
+    ctx.trusted.append("K118a / K118b origin_facts: issubclass / `is` of each modelled origin class against the classes named in "
                        "unpack_collection, evaluated by CPython when the kernel is generated")
     ctx.theorems("props/C18_unpack_kernel.vo", UNPACK_KERNEL_THEOREMS, kernels=["K118a"])
+    # (T) encode side: which origins are submitted to K15's rule, which are always rebuilt (ChainMap, tuples, named
+    # tuples, TypedDict) is the if/elif chain of pack.py:pack_collection (kernel K118b); K118b + K15 = Share.cp
+    ctx.theorems("props/C18_pack_kernel.vo", PACK_KERNEL_THEOREMS, kernels=["K15", "K118b"])
     br = ctx.theorems("props/C18_share.vo", THEOREMS)
     if not ctx.quick() and br.ok:
         # second opinion: the independent checker re-validates the compiled library and reports every axiom
@@ -2132,6 +2135,9 @@ def run(ctx: vlib.Ctx):
             drop_module(c.mod)
 
 
+PACK_KERNEL_THEOREMS = ["C18_pack_source_byref_only_by_rule", "C18_pack_structs_rebuild", "C18_pack_seq_is_source",
+                        "C18_pack_map_is_source", "C18_pack_chainmap_is_source", "C18_pack_tuple_is_source",
+                        "C18_pack_compiler_is_source", "C18_share_source"]
 UNPACK_KERNEL_THEOREMS = ["C18_unpack_source_rebuilds", "C18_unpack_structs_rebuild", "C18_unpack_seq_is_source",
                           "C18_unpack_map_is_source", "C18_unpack_tuple_is_source", "C18_unpack_compiler_is_source",
                           "C18_decode_fresh_source"]
